@@ -67,7 +67,7 @@ StrOf(val, sec) ==
       [] val.vc = "colon" -> IF ColonSplit = "first" THEN "#int:7" ELSE "#int"
       [] OTHER -> "#" \o val.vc
 \* `\` -> `/`
-StdPath(s) == CASE s = "p\\q" -> "p/q" [] OTHER -> s
+StdPath(s) == CASE s = "p\\q" -> "p/q" [] s = "p\\\\q" -> "p//q" [] OTHER -> s      \* nothing else: quotes stay, doubled separators stay
 
 \* ---- field tables -------------------------------------------------------------
 \* type of each recognised key per section
@@ -177,7 +177,7 @@ NumVals == {V("int", 0, ""), V("int", 1, ""), V("int", 2, ""), V("int", 3, ""), 
             V("max", 0, ""), V("min", 0, ""), V("big", 0, ""), V("nan", 0, ""), V("inf", 0, ""),
             V("empty", 0, ""), V("garbage", 0, ""), V("cmt", 2, ""), V("colon", 2, "")}
 IntOnlyVals == {V("over", 0, ""), V("under", 0, "")}
-StrVals == {V("str", 0, s) : s \in {"a", "a b", "x:y", "p\\q", "Soft", "Half speed", "Normal", "Drum", "[General]", "osu file format v9"}}
+StrVals == {V("str", 0, s) : s \in {"a", "a b", "x:y", "p\\q", "p\\\\q", "\"q\"", "Soft", "Half speed", "Normal", "Drum", "[General]", "osu file format v9"}}
            \cup {V("empty", 0, ""), V("cmt", 2, ""), V("colon", 2, ""), V("int", 2, "")}
 
 KeysOf(sec) ==
